@@ -26,7 +26,7 @@ import (
 
 const swaggerDoc = `{
  "swagger":"2.0","info":{"title":"c09","version":"1"},"basePath":"/",
- "consumes":["application/json","text/plain"],"produces":["application/json","text/plain"],
+ "consumes":["application/json; charset=utf-8","text/plain"],"produces":["application/json","text/plain"],
  "securityDefinitions":{
   "key":{"type":"oauth2","flow":"password","tokenUrl":"http://x/t","scopes":{"ska":"","skc":"","skd":""}},
   "tok":{"type":"oauth2","flow":"password","tokenUrl":"http://x/t","scopes":{"stc1":"","stc2":""}}},
@@ -297,6 +297,9 @@ type built struct {
 }
 
 func build() *built {
+	viewMu.Lock()
+	firstView = map[string][2][]string{}
+	viewMu.Unlock()
 	doc, err := loads.Analyzed(json.RawMessage(swaggerDoc), "")
 	if err != nil {
 		panic(err)
@@ -313,9 +316,8 @@ func build() *built {
 	api.RegisterOperation("GET", "/c/{id}", handler())
 	api.RegisterOperation("POST", "/d", handler())
 	api.RegisterOperation("POST", "/e", handler())
-	if err := api.Validate(); err != nil {
-		panic(err)
-	}
+	// no api.Validate(): it compares registrations with the declared consumes literally, and the declared entry carries a
+	// parameter ("application/json; charset=utf-8") while codecs are registered under the bare media type
 	ctx := middleware.NewContext(doc, api, nil)
 	h := ctx.RoutesHandler(nil)
 	return &built{ctx: ctx, handler: h}
@@ -332,13 +334,55 @@ func scopesOf(route *middleware.MatchedRoute) []string {
 	return route.Authenticator.AllScopes()
 }
 
+// routeView projects the media-type lists of a matched route onto what they were when this router first handed the route
+// out (the router draws their order from a Go map, so the order itself is not predictable): each entry is rendered as its
+// index in the first view, or "?" when no entry of the first view has this text.  A route whose lists are neither reordered
+// nor rewritten by the requests served before reads "c:0,1,2" "p:0,1" for every request.
+var (
+	viewMu    sync.Mutex
+	firstView = map[string][2][]string{} // operation id -> consumes, produces as first seen; reset with every build()
+)
+
+func routeView(route *middleware.MatchedRoute) []string {
+	if route == nil || route.Operation == nil {
+		return []string{"c:?", "p:?"}
+	}
+	viewMu.Lock()
+	defer viewMu.Unlock()
+	id := route.Operation.ID
+	fv, ok := firstView[id]
+	if !ok {
+		fv = [2][]string{append([]string(nil), route.Consumes...), append([]string(nil), route.Produces...)}
+		for i := range fv {
+			for j := range fv[i] {
+				fv[i][j] = strings.Clone(fv[i][j])
+			}
+		}
+		firstView[id] = fv
+	}
+	render := func(tag string, first, now []string) string {
+		out := make([]string, len(now))
+		for i, e := range now {
+			out[i] = "?"
+			for k, f := range first {
+				if f == e {
+					out[i] = fmt.Sprint(k)
+					break
+				}
+			}
+		}
+		return tag + strings.Join(out, ",")
+	}
+	return []string{render("c:", fv[0], route.Consumes), render("p:", fv[1], route.Produces)}
+}
+
 // hook translates the stage notifications of the real pipeline into events.
 func hook(stage string, r *http.Request, detail ...any) {
 	switch stage {
 	case "route":
 		lookups.Add(1)
 		route := detail[0].(*middleware.MatchedRoute)
-		emit("route", route.PathPattern, dash(route.Params.Get("id")))
+		emit("route", append([]string{route.PathPattern, dash(route.Params.Get("id"))}, routeView(route)...)...)
 	case "ctype":
 		emit("ctype", short(detail[0].(string)))
 	case "format":
